@@ -322,7 +322,7 @@ def oer_sweep(run, model, jobs, rng, tier, name):
                     mlines += ["oercdec %s %s" % (j["ts"], b.hex()), "oervar %s %s %s" % (j["ts"], j["vs"], ch)]
                 else:
                     ch = ch_tree_ext(j["ext"], j["pyval"], forms)
-                    mlines += ["xoercdec 0 %s %s" % (j["ts"], b.hex()), "xoervar %s %s %s" % (j["ts"], j["vs"], ch)]
+                    mlines += ["xoercdec %s %s" % (j["ts"], b.hex()), "xoervar %s %s %s" % (j["ts"], j["vs"], ch)]
                 lines.append("dec %s oer %s" % (j["tn"], b.hex()))
                 meta.append((j, lab, b, ch))
         if not lines:
